@@ -441,11 +441,11 @@ def isJS : Frame → Bool
   | js _ | ct | px | dy | pr | ji | jg | jgf | ja | jaw => true     -- ct / px / dy / pr are entered through a JS shim
   | _ => false
 /-- The frame ends the propagation of a JS exception: a catch without rethrow, or an async function (its promise
-is rejected with the value instead), or Runtime.ForOf over an iterator whose return() throws (see `replaces`). -/
-def swallows : Frame → Bool | js k => k.swallows | ja => true | fot => true | _ => false
-/-- The frame replaces the exception in flight by ANOTHER exception (known finding C14
-`forof-return-replaces-exception`: Runtime.ForOf calls the iterator's return() unguarded). -/
-def replaces : Frame → Bool | fot => true | _ => false
+is rejected with the value instead)'. -/
+def swallows : Frame → Bool | js k => k.swallows | ja => true | _ => false
+/-- The frame replaces the exception in flight by ANOTHER exception: no frame does since fix 51964d9 (before it,
+Runtime.ForOf called the iterator's return() unguarded — see `fotPrefix`). -/
+def replaces : Frame → Bool | _ => false
 def unwraps : Frame → Bool | xfe => true | _ => false
 /-- The frame replaces the *Exception (new stack) while keeping the value. -/
 def rethrows : Frame → Bool | js k => k.rethrows | fcv => true | _ => false
@@ -532,14 +532,20 @@ def applyFrame (idx : Nat) (f : Frame) (cjs : Bool) (fl : Flow) : Flow × List L
         | .returned e _ => (.normal, [⟨idx, .asyncReject e.val⟩])
         | _ => (.panic x o, []))
   | .fot =>                                                              -- Runtime.ForOf (runtime.go): step under vm.try, then
-    (match vmTry (panicErr (callable cjs fl)) with                       --   `if ex != nil { iter.returnIter(); panic(ex) }`
+    (match vmTry (panicErr (callable cjs fl)) with                       --   `if ex != nil { _ = r.vm.try(iter.returnIter); panic(ex) }`
       | .ok => (.normal, [])                                             -- next iteration: the iterator is exhausted
-      | .ex _ =>                                                         -- returnIter() is NOT guarded: the Error thrown by the
-        (.panic (.exc ⟨.freshErr .error .other, .other⟩) .other,         --   iterator's return() leaves ForOf instead of `ex`
-          [⟨idx, .iterReturn⟩])
+      | .ex e => (.panic (.exc e) .other, [⟨idx, .iterReturn⟩])          -- return() runs guarded (fix 51964d9): the original wins
       | .panic x o => (.panic x o, []))                                  -- vm.try re-panics what is not a JS exception
   | .pr => (fl, [])                                                      -- never applied (segments are split at pr / jaw)
   | .jaw => (fl, [])
+
+/-- The `fot` frame BEFORE fix 51964d9 (`iter.returnIter()` unguarded): the Error thrown by the iterator's return()
+left ForOf instead of the original exception.  Kept for the regression lemma `…_prefix_witness` in Props. -/
+def fotPrefix (idx : Nat) (cjs : Bool) (fl : Flow) : Flow × List LogE :=
+  match vmTry (panicErr (callable cjs fl)) with
+  | .ok => (.normal, [])
+  | .ex _ => (.panic (.exc ⟨.freshErr .error .other, .other⟩) .other, [⟨idx, .iterReturn⟩])
+  | .panic x o => (.panic x o, [])
 
 /-! ## Payloads (the innermost function) -/
 
